@@ -8,7 +8,7 @@ from pdb2sql import interface
 ID = 'C05'
 LEVEL = 'proof'
 CLUSTER = 'C'
-GEN_UNITS = ['Consts']
+GEN_UNITS = ['Consts', 'contacts_attrs', 'contacts_get_chains', 'contacts_extend_to_residue', 'contacts_get_contact_atoms']
 RULE = ('synthetic structures of 2-5 chains (1-12 atoms each, table order contiguous or interleaved, chain IDs not in sorted order) on a '
         '1/4-Angstrom lattice: every atom of a later chain is placed relative to an atom of another chain by an offset that is EXACTLY a '
         'cutoff (integer solutions of a^2+b^2+c^2 = (4*cutoff)^2 for the cutoffs 3, 5, 7, 8.5, 9), one lattice step inside, one step outside, '
@@ -27,7 +27,10 @@ ASSUMPTIONS = ['single-model files (no ENDMDL): with models get() returns one li
                'or at least 1e-6 away from it; cases of real files with a pair closer than 1e-6 to the cutoff are discarded and counted',
                'np.array() of the mixed rows converts each float to its shortest repr and back (exact round trip)',
                'SQLite returns the rows of `chainID = ?` / `rowID IN (...)` in table order (rowid order)']
-TRUSTED = ['the published backbone atom names N, CA, C, O are given to the Spec by the harness (constant BACKBONE); the Model takes them from the source (Gen.backbone_atoms)']
+TRUSTED = ['the published backbone atom names N, CA, C, O are given to the Spec by the harness (constant BACKBONE); the Model takes them from the source (Gen.backbone_atoms)',
+           'translator plug-in py/translate_ext_contacts.py (Python ast -> Gen/Contacts.lean) and the runtime lean/PdbVerif/Py/Dict.lean that fixes what the translated dict / list / set / '
+           'NumPy operations mean; cross-checked on every run: every case is answered by the hand model AND by the generated function (sets iterated in insertion order, and in reverse on '
+           'small tables with extend_to_residue) and the implementation must equal all of them; Props/C05K, C14K prove generated = hand model for all inputs']
 
 BACKBONE = ['CA', 'C', 'N', 'O']            # the convention the property refers to (not read from the library)
 CUTS = [3.0, 5.0, 7.0, 8.5, 9.0]
@@ -377,7 +380,8 @@ def impl(ctx, c):
 
 def driver_line(c):
     return {'op': c['op'], 'atoms': get_table(c), 'cutoff': c['cutoff'], 'allchains': c['allchains'], 'chain1': c['chain1'],
-            'chain2': c['chain2'], 'extend': c['extend'], 'bb': c['bb'], 'noH': c['noH'], 'pairs': c['pairs'], 'backbone': BACKBONE}
+            'chain2': c['chain2'], 'extend': c['extend'], 'bb': c['bb'], 'noH': c['noH'], 'pairs': c['pairs'], 'backbone': BACKBONE,
+            'gen': True}        # the Model driver answers with the hand model AND the generated translation (Gen/Contacts.lean)
 
 
 # ----------------------------------------------------------------------------------------------------------------
@@ -647,15 +651,28 @@ def sort_values(o):
     return o
 
 
+def model_views(model):
+    """the Model driver's answer: {'hand': hand-written model, 'gen': generated translation (sets iterated in insertion order),
+    'gen_rev': the same with sets iterated in reverse (small tables with extend_to_residue)}; a bare value = the hand model only"""
+    if isinstance(model, dict) and 'hand' in model and 'gen' in model:
+        return [(k, model[k]) for k in ('hand', 'gen', 'gen_rev') if k in model]
+    return [('hand', model)]
+
+
 def agree_model(c, out, model):
+    """implementation = hand model = generated translation"""
     try:
-        if out == model:
+        views = model_views(model)
+        bad = [(k, v) for k, v in views if out != v]
+        if not bad:
             return True
         if near_boundary(c):
             return 'discard'
     except Exception as e:
         return f'comparison failed ({e!r}): implementation {json.dumps(out, default=str)[:300]}'
-    return f'implementation {json.dumps(out, default=str)[:300]} model {json.dumps(model, default=str)[:300]}'
+    names = {'hand': 'hand model (Model/Contacts.lean)', 'gen': 'generated translation (Gen/Contacts.lean)',
+             'gen_rev': 'generated translation, sets iterated in reverse'}
+    return f'implementation {json.dumps(out, default=str)[:300]} ' + ' '.join(f'{names[k]} {json.dumps(v, default=str)[:300]}' for k, v in bad)
 
 
 def agree_spec(c, out, spec):
@@ -836,13 +853,13 @@ def extra_checks(ctx):
                 'case': bad_once, 'detail': ''})
     # the constants the Model takes from the source: default cutoffs and backbone names as the running library has them
     import inspect, vlib
-    ans = vlib.run_driver([{'op': 'contact_defaults'}, {'op': 'backbone_names'}], which='model', cluster='C')
+    ans = vlib.run_driver([{'op': 'contact_defaults'}, {'op': 'backbone_names'}, {'op': 'gen_backbone_names'}], which='model', cluster='C')
     try:
         d_atoms = inspect.signature(interface.get_contact_atoms).parameters['cutoff'].default
         d_res = inspect.signature(interface.get_contact_residues).parameters['cutoff'].default
         probe = interface([atom_line(1, ' CA ', 'ALA', 'A', 1, 0, 0, 0)])
         lib = [d_atoms, d_res, list(probe.backbone_atoms)]
-        ok = (ans[0]['model'] == {'atoms': rat(float(d_atoms)), 'residues': rat(float(d_res))} and ans[1]['model'] == list(probe.backbone_atoms)
+        ok = (ans[0]['model'] == {'atoms': rat(float(d_atoms)), 'residues': rat(float(d_res))} and ans[1]['model'] == list(probe.backbone_atoms) and ans[2]['model'] == list(probe.backbone_atoms)
               and sorted(probe.backbone_atoms) == sorted(BACKBONE))
     except Exception as e:
         ok, lib = False, repr(e)[:300]
